@@ -186,6 +186,8 @@ class TorchOps(Ops):
                       idx_of=tv.idx_of, size_of=None, **fl)
 
     def subscript(self, base, idx, node, env):
+        if isinstance(base, ListV) and base.kind == "counter":
+            return self.unk("lookup in a Counter", node)
         if isinstance(base, ListV):
             return self.list_subscript(base, idx, node)
         if isinstance(base, DictV):
@@ -312,6 +314,7 @@ class TorchOps(Ops):
             return tvv.but(kind=tv.kind, note="")  # buf[()] = v: the whole (uninitialised) buffer receives v
         p, q, s, z = tv.p and tvv.p, tv.q and tvv.q, tv.s and tvv.s, tv.z and tvv.z
         gen = tv.gen | tvv.gen
+        rowdist = None
         if tv.dtype != tvv.dtype and not tvv.is_py and tv.dtype not in ("Mixed",) and tvv.dtype not in ("Mixed",):
             # a store converts the value to the dtype of the buffer it lands in
             self.ev("store_cast", st, buffer_dtype=tv.dtype, value_dtype=tvv.dtype, buffer_origin=sorted(tv.origin), buffer_note=tv.note)
@@ -334,6 +337,9 @@ class TorchOps(Ops):
                 # for every i — a row-wise map, which no longer depends on the position the loop happens to be at
                 p = p and it.p
                 gen = (gen | it.gen) - it.gen
+                if tvv.note.startswith("rowdist:") and it.note == "enumerate-index" and it.gen == tvv.gen and len(parts) == 1 and tuple(tv.axes) == ("R", "R") \
+                        and not (tv.gen - it.gen):
+                    rowdist = tvv.note.split(":", 1)[1]  # buf[i] = ||matrix - row_i|| for (i, row_i) in enumerate(matrix): buf is the matrix of pairwise distances
             elif it is not None and (it.idx_of == tag or (it.gen and tag == "R")):
                 p = p and it.p
                 gen = gen | it.gen
@@ -344,6 +350,10 @@ class TorchOps(Ops):
                 q = s = z = False
         out = tv.but(p=p, q=q, s=s, z=z, gen=gen, deg=tvv.deg if tv.note == "uninitialised" else join_deg(tv.deg, tvv.deg), poly=None, rng=tv.rng or tvv.rng,
                      origin=tv.origin | tvv.origin, span=(tv.span or tv.note == "uninitialised") and tvv.span)
+        if rowdist is not None:
+            # the same matrix torch.cdist(matrix, matrix) computes, from exact differences; the norm is part of the distance, not a reduction of it
+            out = out.but(origin=frozenset(o for o in out.origin if not o.startswith("reduce#")), note="")
+            return self.tag(out, "cdist", st, p=rowdist, compute_mode="donot_use_mm_for_euclid_dist", both_raw=True, eps=None, spelled="row by row")
         if len(parts) == 1 and parts[0][0] == "index":
             it = tv_of(parts[0][1])
             if it is not None and tv.axes and ((it.kind == "tensor" and it.axes) or (it.is_py and it.idx_of is not None and it.idx_of == tv.axes[0])):
